@@ -137,7 +137,9 @@ CHECKS = {
                 "device-visible statements and a quiet statement at 23 positions (branches, returning ifs, loops with carried variables up to "
                 "depth 3, subroutines incl. recursive, closures called / returned / never called, before and after dynamic calls); the "
                 "implementation's answer is compared with the model on the abstracted IR, and 'acts' is established by executing every kernel "
-                "for all arguments of a small domain; single-statement answers of every statement kind are reflected.",
+                "for all arguments of a small domain; single-statement answers of every statement kind are reflected. On every run the handlers of "
+                "analysis/runtime.py and the four dialect runtime tables are translated from source (fail-closed) into one-step Gallina "
+                "functions proved equal to the model's scan for every statement and every nested contribution.",
         "note": NOTE_COMMON + " 'dynamically resolved' is read as: the compiled call carries no constant hint for its callee (DESIGN.md section 10).",
         "technique": "Coq soundness proof of the analysis model against a nondeterministic execution relation + IR-abstraction correspondence",
     },
